@@ -368,7 +368,8 @@ class KBEval:
         k = s['k']
         if k == 'Compound':
             for x in s['s']:
-                self._exec(x, rets)
+                if self._exec(x, rets):
+                    return True      # a return was executed on this (decided) path
         elif k == 'Decl':
             for d in s['d']:
                 if 'init' in d and type_info(d.get('ty')) is not None:
@@ -378,6 +379,7 @@ class KBEval:
         elif k == 'Return':
             if s.get('e') is not None:
                 rets.append(self.ev(s['e']))
+            return True
         elif k == 'Assign':
             if type_info(s['l'].get('ty')) is None:
                 return
@@ -417,7 +419,7 @@ class KBEval:
                 except AnalysisBroken:
                     c = None
             if c is not None:
-                self._exec(s['t'] if c else s.get('e'), rets)
+                return self._exec(s['t'] if c else s.get('e'), rets)
             else:
                 e1 = KBEval(self.F, self.env, self.depth, self.overrides)
                 e2 = KBEval(self.F, self.env, self.depth, self.overrides)
